@@ -64,3 +64,7 @@ M("c04-worker-scope-grandparent", "C04", A, "AsyncIOBackend.run_sync_in_worker_t
 
 # from seeded change C04/e (round 3): delivery restarted in the name of the wrong scope
 M("c04-restart-wrong-origin", "C04", A, "CancelScope._restart_cancellation", "scope._deliver_cancellation(scope)", "scope._deliver_cancellation(self)", ["R04-i"])
+
+# from seeded change C04/f (round 3)
+M("c04-shielded-checkpoint-fast-path", "C04", A, "AsyncIOBackend.cancel_shielded_checkpoint", "        with CancelScope(shield=True):\n            await sleep(0)",
+  "        if cls.current_effective_deadline() == -math.inf:\n            with CancelScope(shield=True):\n                await sleep(0)\n        else:\n            await sleep(0)", ["R04-j"])
